@@ -199,7 +199,8 @@ contract(
     requires=PENDING('_a_factor') + PENDING('_g_factor'),
     ensures=[('two_entries', "len(result) == 2 and 'A' in result and 'G' in result"),
              ('factors_as_held', "result['A'] is old(awaited(self._a_factor)) and result['G'] is old(awaited(self._g_factor))"),
-             ('values_untouched', "implies(result['A'] is not None, val(result['A']) == old(val(awaited(self._a_factor))))")],
+             ('values_untouched', "implies(result['A'] is not None, val(result['A']) == old(val(awaited(self._a_factor))))"),
+             ('factors_kept', 'awaited(self._a_factor) is old(awaited(self._a_factor)) and awaited(self._g_factor) is old(awaited(self._g_factor))')],
     modifies=['self._a_factor', 'self._g_factor', '*.resolved'],
 )
 contract(
